@@ -266,6 +266,18 @@ WHY = {
 }
 
 
+def _fill_branch(res):
+    """the part of a result table that matters when fill_not_valid is True"""
+    out = []
+    for item in res or []:
+        if item[0] == 'always':
+            v = item[1]
+            out.append(('always', v[5:].split(':')[0] if isinstance(v, str) and v.startswith('fill?') else v))
+        elif item[0] == 'if':
+            out.append(('if', item[1], _fill_branch(item[2]), _fill_branch(item[3])))
+    return out
+
+
 def norm(facts):
     out = dict(facts)
     for k in ('prefix_cond', 'advance_cond', 'main_cond'):
@@ -273,7 +285,7 @@ def norm(facts):
     return out
 
 
-def check_scans(ctx, kinds=('lower', 'higher', 'closest')):
+def check_scans(ctx, kinds=('lower', 'higher', 'closest'), fill_true_only=False):
     ctx.rule('C10.3', 'tie / strictness table of the recognised two-pointer skeleton: lower - prefix <, advance <=, result x_idx, invalid prefix value 0 / -1 by '
                       'fill_not_valid; higher - prefix <=, advance <, result x_idx+1, or x_idx / len(x) when x is exhausted; closest - prefix <=, advance < with the '
                       'current value carried, tie <= -> lower; sentinels (None) are tested by identity, never by truthiness; no extra condition weakens a comparison')
@@ -295,6 +307,14 @@ def check_scans(ctx, kinds=('lower', 'higher', 'closest')):
         want = TABLE[kind]
         for key, expected in want.items():
             got = facts.get(key)
+            if fill_true_only and kind == 'lower' and key == 'prefix_cond':
+                # with filling on, a query equal to the first element gets index 0 from the prefix loop as well as from the main loop
+                if got in (expected, [('notnone', ('lookup',)), ('cmp', ('lookup', 'LtE', 'x_val'))]):
+                    got = expected
+            if fill_true_only and isinstance(got, str) and got.startswith('fill?') and isinstance(expected, str) and expected.startswith('fill?'):
+                got, expected = got[5:].split(':')[0], expected[5:].split(':')[0]
+            if fill_true_only and key == 'result':
+                got, expected = _fill_branch(got), _fill_branch(expected)
             ctx.check(got == expected, 'C10.3', f"{kind}: {WHY[key]}", f"code:     {got}\nexpected: {expected}", fi.loc(), fi.qualname, f"{kind}:{key}")
         ctx.sample({'rule': 'C10.3', 'scan': kind, 'prefix': str(facts.get('prefix_cond')), 'advance': str(facts.get('advance_cond')), 'result': str(facts.get('result'))[:200]})
         # C10.2 taint: value roles only inside Compare nodes / role-to-role copies
